@@ -104,6 +104,7 @@ type c18Res struct {
 }
 
 func C18(r *core.Run) {
+	r.CLIOnly = true
 	dir := ""
 	if !r.IsWorker() {
 		dir = core.Scratch("c18")
